@@ -9,5 +9,25 @@ func specs() map[string]*spec {
 		Rule: "full grid {5 schemes}x{15 hosts}x{port}x{paths of 0-3 segments over 17 atoms}x{trailing slash}x{4 suffixes}, then PRNG structured links and PRNG raw strings; each resolved 5 times; distinct = distinct (scheme,host,port,#segments,expected class,trailing,suffix,link prefix) among links in the strict zone (don't-care spellings are run for no-panic/determinism only and not counted)",
 		Assumptions: []string{"ref/link.Expect states the demanded class from the components a link was assembled from (never by parsing it)", "Go runtime"},
 	})
+	add(&spec{ID: "C05", Level: "exploration",
+		WLs: []wlSpec{{Name: "c05", TimeoutS: 600}},
+		Rule: "IGE block loop vs an independent implementation for every block count 1..N with key/IV shapes {random, all-zero, all-ff, 1-3 leading zero bytes}; refused lengths 0..47; message wrappers for every length 1..N; key-exchange wrappers for every payload length 0..N (every residue of (20+len) mod 16) with nonces of each leading-zero shape; distinct = distinct (kind, length, key/nonce shape)",
+		Assumptions: []string{"ref/mtp IGE/KDF/temp-key implementation (self-tested against OpenSSL IGE vectors and the core.telegram.org temp-key sample)", "crypto/aes, crypto/sha1"},
+	})
+	add(&spec{ID: "C03", Level: "exploration",
+		WLs: []wlSpec{{Name: "c03", TimeoutS: 600}},
+		Rule: "every body length 0..N plus sampled lengths up to 65536, x key shapes {random, zero, ff, leading zeros} x boundary salts/session ids/msg_ids x ack/no-ack: library seals -> reference server opens (x=0); reference server seals (x=8) -> library opens; unencrypted envelope both ways; distinct = distinct (direction, body length, key shape, ack)",
+		Assumptions: []string{"ref/mtp envelope + KDF (self-tested)", "crypto/aes, crypto/sha1"},
+	})
+	add(&spec{ID: "C04", Level: "fault_enumeration",
+		WLs: []wlSpec{{Name: "c04", TimeoutS: 900}},
+		Rule: "per valid reference-sealed packet: every single-bit flip, every truncation length, 3 re-keyings, 16 block-aligned garbage bodies, both client parities, and (attacker holds the key) declared lengths {-2^31,-1,2^24,2^31-16,2^31-1, len-33..len+33, total-33..total+33} x 3 choices of what msg_key covers; unencrypted: every truncation, 6 bad lengths, parities; distinct = distinct (mutation class, position/offset)",
+		Assumptions: []string{"ref/mtp seals the packets and states what a key holder sealed", "a single-bit flip being accepted by chance has probability 2^-128 and is ignored"},
+	})
+	add(&spec{ID: "C08", Level: "exploration",
+		WLs: []wlSpec{{Name: "c08", TimeoutS: 600}, {Name: "c08tcp", TimeoutS: 600, Shards: 8}},
+		Rule: "writing: every length {0,4,..,520,1020,1024,4096,65536,2^20} in both modes, wire bytes vs reference framing; reading: EVERY composition of every short reference-framed stream (<=12 bytes quick, <=15 thorough) through go-dry's CancelableReader (the exact-count mechanism tcpConn uses), plus PRNG segmentations/1-byte-at-a-time/whole for sequences of 1-6 longer messages, then EOF; loopback TCP through transport.NewTransport with a peer writing PRNG segments (TCP_NODELAY, paced) of plain-envelope messages and 4-byte signed error codes, then orderly close; distinct = distinct (mode, shape, composition or segmentation class)",
+		Assumptions: []string{"ref/mtp framing", "kernel loopback TCP; the actual split seen by the reader on the TCP path is decided by the kernel (deterministic path covers all compositions)"},
+	})
 	return m
 }
